@@ -860,7 +860,14 @@ impl CodegenContext {
                                     None => self.current_scope_nx,
                                 };
 
-                                for (child_id, child_nx) in self.symbols.children(import_nx) {
+                                // (in the order in which the symbols were defined: when two of them cannot be imported,
+                                // it is always the same one that is reported)
+                                for (child_id, child_nx) in self
+                                    .symbols
+                                    .children(import_nx)
+                                    .into_iter()
+                                    .sorted_by_key(|(_, child_nx)| child_nx.index())
+                                {
                                     // Do not import special identifiers
                                     if child_id.is_special() {
                                         continue;
